@@ -278,6 +278,39 @@ def r04c(ctx):
     ctx.floor('R04c', 'cost iteration sites', n, 4)
 
 
+def accumulation_rule(ctx, rule: str, label: str, fn, keep=None):
+    """Every contribution computed in the loop(s) of a cost routine reaches the returned total.
+    The routine is evaluated with two generic iterations per loop; a call made inside a loop
+    whose value reaches the returned value on some path is a contribution; on every path each
+    contribution made (first and second iteration alike) must be part of the returned value --
+    ``total = f(x)`` instead of ``total = total + f(x)`` keeps only the last layer."""
+    repo = ctx.repo
+    ps = returning(paths(repo, fn, loop_unroll=2, keep=keep))
+    contrib = set()
+    for p in ps:
+        for e in p.calls():
+            if any(c and c[0] == 'loop' for c in e.ctx) and p.retval is not None and \
+                    mentions(p.retval, lambda x, t=e.data[0]: x == t):
+                contrib.add(id(e.node))
+    lost = {}
+    n = 0
+    for p in ps:
+        for e in p.calls():
+            if id(e.node) in contrib:
+                n += 1
+                if not mentions(p.retval, lambda x, t=e.data[0]: x == t):
+                    lost.setdefault(getattr(e.node, 'lineno', 0), e)
+    ctx.ob(rule, f'{label} accumulates every contribution', not lost and n > 0,
+           f'{len(contrib)} contributing call site(s); each contribution of each of two generic '
+           f'iterations is part of the returned total' if not lost and n > 0 else
+           'no contributing call found in a loop' if not lost else
+           '; '.join(f'the contribution {short(e.data[0], 70)} computed in one iteration is not '
+                     f'part of the value returned after a later iteration (the total is '
+                     f'overwritten, not accumulated): only the last layer is charged'
+                     for e in lost.values()),
+           where(fn, next(iter(lost.values())).node) if lost else where(fn))
+
+
 def r04d(ctx):
     repo = ctx.repo
     w = repo.cls('PIT')
@@ -311,15 +344,7 @@ def r04d(ctx):
                            'fixed layers charged only when full_cost is set' if full else
                            f'fixed layers are charged under {[(short(a, 40), v) for a, v in g]}',
                            where(fn, e.node))
-        # accumulation: returned value contains every cost call of the path
-        calls = [e.data[0] for e in p.calls()
-                 if e.data[0][1][0] == 'sub' and e.data[0][1][1] == ('param', 'cost_fn_map')]
-        for c in calls:
-            inc = mentions(p.retval, lambda x, c=c: x == c)
-            ctx.ob('R04d', 'PIT._get_single_cost accumulates every layer', inc,
-                   'each layer cost is added to the returned total' if inc else
-                   f'the cost {short(c, 60)} is computed but not added to the returned value',
-                   where(fn))
+    accumulation_rule(ctx, 'R04d', 'PIT._get_single_cost', fn)
     ctx.floor('R04d', 'searchable-layer cost sites', searchable, 1)
     ctx.floor('R04d', 'fixed-layer cost sites', fixed, 1)
     # cost-function selection: original torch type through pit_layer_map, static vars
